@@ -118,6 +118,50 @@ theorem search_append {α : Type} [Inhabited α] (p : α → Bool) (pre rest : L
     rw [index_append_right _ _ _ hx]
     exact h2 _ (index_mem _ _ (by omega) (by omega))
 
+/-! ### strings -/
+
+theorem strLt_iff (a b : String) : strLt a b = true ↔ a < b := by simp [strLt]
+theorem strLe_iff (a b : String) : strLe a b = true ↔ a ≤ b := by simp [strLe]
+theorem strGt_iff (a b : String) : strGt a b = true ↔ b < a := by simp [strGt]
+theorem strGe_iff (a b : String) : strGe a b = true ↔ b ≤ a := by simp [strGe]
+
+/-- `strings.Compare(a, b) == -1` says `a < b` -/
+theorem strCompare_neg_one_iff (a b : String) : strCompare a b = -1 ↔ a < b := by
+  unfold strCompare
+  by_cases h : a = b
+  · subst h; simp [String.lt_irrefl]
+  · by_cases h2 : a < b <;> simp [h, h2]
+
+/-- Go's order on strings is the byte-wise one; Lean's is the lexicographic order of the code points -/
+theorem str_lt_iff_toList (a b : String) : a < b ↔ a.toList < b.toList := Iff.rfl
+
+/-! ### the last element of a slice that was just appended to -/
+
+theorem inRange_append_last {α : Type} (l : List α) (x : α) :
+    inRange (l ++ [x]) (len (l ++ [x]) - 1) = true := by
+  rw [inRange_iff]; simp only [len, List.length_append, List.length_singleton]; omega
+
+theorem index_append_last {α : Type} [Inhabited α] (l : List α) (x : α) :
+    index (l ++ [x]) (len (l ++ [x]) - 1) = x := by
+  have : (len (l ++ [x]) - 1).toNat = l.length := by
+    simp only [len, List.length_append, List.length_singleton]; omega
+  simp [index, this]
+
+theorem set_append_last {α : Type} (l : List α) (x v : α) :
+    set (l ++ [x]) (len (l ++ [x]) - 1) v = l ++ [v] := by
+  have : (len (l ++ [x]) - 1).toNat = l.length := by
+    simp only [len, List.length_append, List.length_singleton]; omega
+  simp [set, this]
+
+/-- the element behind a prefix -/
+theorem index_append_length {α : Type} [Inhabited α] (pre : List α) (x : α) (rest : List α) :
+    index (pre ++ x :: rest) (pre.length : Int) = x := by
+  simp [index]
+
+theorem inRange_append_length {α : Type} (pre : List α) (x : α) (rest : List α) :
+    inRange (pre ++ x :: rest) (pre.length : Int) = true := by
+  rw [inRange_iff]; simp only [List.length_append, List.length_cons]; omega
+
 theorem drop_succ_append {α : Type} (P : List α) (a : α) (R : List α) (k : Nat) (hk : k = P.length) :
     (P ++ a :: R).drop (k + 1) = R := by
   subst hk; simp
